@@ -118,15 +118,14 @@ Fix(c) == [c EXCEPT !.depL = Eager(Cats, LAMBDA k : IF c.depK[k] = "list" THEN c
 SimNext ==
     IF n = 0 THEN LET c == Fix(RandCfg(n)) IN ConfigureA(c)
     ELSE IF ~ok THEN FALSE
-    ELSE LET w == RandomElement(1..12)  cat == RandomElement(Cats)  pw == RandomElement(Pws)
-             h == IF store = {} THEN RandomElement(ForeignHashes) ELSE RandomElement(store)
-         IN CASE w \in {1, 2, 3} -> HashA(pw, cat, RandomElement(DrawsFor(cat)))
-              [] w \in {4, 5} \/ store = {} -> ForeignA(RandomElement(ForeignHashes))
-              [] w = 6 -> IdentifyA(h)
-              [] w = 7 -> VerifyA(pw, h)
-              [] w \in {8, 9} -> NeedsA(h, cat)
-              [] OTHER -> VauA(pw, h, cat, IF Verify(cfg, pw, h) = "True" /\ NeedsUpdate(cfg, h, cat) = "True" /\ CanHash(cat)
-                                           THEN RandomElement(DrawsFor(cat)) ELSE Unset)
+    ELSE LET w == RandomElement(1..12) IN
+         \* (a LET-bound RandomElement is re-drawn at every reference: dependent choices are made with \E)
+         CASE w \in {1, 2, 3} -> \E pw \in Pws, cat \in Cats : \E x \in DrawsFor(cat) : HashA(pw, cat, x)
+           [] w \in {4, 5} \/ store = {} -> \E h \in {RandomElement(ForeignHashes)} : ForeignA(h)
+           [] w = 6 -> \E h \in store : IdentifyA(h)
+           [] w = 7 -> \E h \in store, pw \in Pws : VerifyA(pw, h)
+           [] w \in {8, 9} -> \E h \in store, cat \in Cats : NeedsA(h, cat)
+           [] OTHER -> \E h \in store, cat \in Cats, pw \in Pws : \E x \in DrawsFor(cat) \cup {Unset} : VauA(pw, h, cat, x)
 
 \* ---- properties (C04) ---------------------------------------------------------------------
 \* I1: a hash is attributed to the first configured scheme that claims it
